@@ -45,18 +45,21 @@ theorem laneOut_parMap {υ} (h : Handler υ) (u : υ) (exec : Nat → Bool) (n :
     rw [← this]
     simp only [laneIn, hregs, hcin, hmout]
 
-/-- **The sequential loop over one mutable state equals the parallel per-lane map.** -/
-theorem seqLoop_eq_parMap {υ} (h : Handler υ) (u : υ) (exec : Nat → Bool) (n : Nat) (s : VState)
-    (hls : LoadOrStore h) : seqLoop h u exec n s = parMap h u exec n s := by
+/-- **The sequential loop over one mutable state equals the parallel per-lane map**, provided each active
+    lane's body sees, after the earlier lanes ran, what it would have seen on the original state. -/
+theorem seqLoop_eq_parMap_of {υ} (h : Handler υ) (u : υ) (exec : Nat → Bool) (n : Nat) (s : VState)
+    (hview : ∀ k, k < n → exec k = true → laneOut h u (parMap h u exec k s) k = laneOut h u s k) :
+    seqLoop h u exec n s = parMap h u exec n s := by
   induction n with
   | zero =>
     apply VState.ext' <;> simp [seqLoop, parMap, activeStores, activeAccesses, applyStores]
     cases h.mask <;> simp
   | succ n ih =>
+    have ih := ih (fun k hk he => hview k (by omega) he)
     simp only [seqLoop, ih]
     by_cases he : exec n = true
     · simp only [he, if_true]
-      have hlo := laneOut_parMap h u exec n s hls
+      have hlo := hview n (by omega) he
       apply VState.ext'
       · funext l
         simp only [stepLane, hlo]
@@ -113,6 +116,10 @@ theorem seqLoop_eq_parMap {υ} (h : Handler υ) (u : υ) (exec : Nat → Bool) (
             simp [this]
       · simp [parMap, activeStores_succ, he']
       · simp [parMap, activeAccesses_succ, he']
+
+theorem seqLoop_eq_parMap {υ} (h : Handler υ) (u : υ) (exec : Nat → Bool) (n : Nat) (s : VState)
+    (hls : LoadOrStore h) : seqLoop h u exec n s = parMap h u exec n s :=
+  seqLoop_eq_parMap_of h u exec n s (fun k _ _ => laneOut_parMap h u exec k s hls)
 
 @[simp] theorem prologue_vgpr {υ} (h : Handler υ) (s : VState) : (prologue h s).vgpr = s.vgpr := by
   simp only [prologue]; cases h.mask <;> rfl
